@@ -15,7 +15,7 @@ ERRNOS = {
 TOLERATED = {"fchown", "fsetxattr", "flistxattr", "fgetxattr"}       # documented warnings (C04 statement)
 TRACE = ",".join(sorted(set(ERRNOS) | {"write", "pwrite64", "close", "fdatasync"}))
 
-def scenario(extra=None, name="all-ops"):
+def scenario(extra=None, name="all-ops", backup=True, old=False):
     def data(n, salt):
         return bytes((i * 3 + salt) % 251 + 1 for i in range(n))
     fs = [E("s", "dir", m=0o750)]
@@ -44,7 +44,15 @@ def scenario(extra=None, name="all-ops"):
     o1 = E("d/s/multi", "file", "OLD1", m=0o600); o1["meta"]["data"] = b"old-one"
     o2 = E("d/s/pipe", "file", "OLD2"); o2["meta"]["data"] = b"old-two"
     fs += [o1, o2]
-    return SC(name, fs, ["s"], "d", extra=["--block-size", "1000", "--fsync", "--backup", "numbered"] + (extra or []), cls="faults")
+    if old:
+        # every regular file is overwritten in place: non-zero old content that is longer than, as long as, or shorter than the new
+        # one (discarding it is a step of the copy as well, and only matters where the new file has holes)
+        o1["meta"]["data"] = b"\xff" * 9000
+        for path, n in (("d/s/sparse", 30000), ("d/s/sparse40", 80 * 4096), ("d/s/small", 10), ("d/s/sub/inner", 100)):
+            if path == "d/s/sub/inner":
+                fs.append(E("d/s/sub", "dir"))
+            o = E(path, "file", "OLD-" + path, m=0o600); o["meta"]["data"] = b"\xff" * n; fs.append(o)
+    return SC(name, fs, ["s"], "d", extra=["--block-size", "1000", "--fsync"] + (["--backup", "numbered"] if backup else []) + (extra or []), cls="faults")
 
 def scenario_one():
     e = E("s", "file", "C4-one", m=0o600, t="1400000000111111111")
@@ -108,6 +116,23 @@ def run(ctx):
         for sysc in ("fchown", "fsetxattr", "fchmod", "utimensat", "fsync"):
             for when in range(1, (6 if quick else 20) + 1):
                 jobs.append((drv, 2, sysc, ERRNOS[sysc][0], when, "OWN"))
+    # further configurations of the same tree (plan "VAR:<name>"): in-place overwrite of non-empty older copies (no backup);
+    # --no-progress (another updater carries the workers' errors); a seeded subset of options that do not change the expected result
+    neutral = [o for o in ["--no-progress", "-v", "--reflink=never", "--gitignore"] if rnd.random() < 0.5] or ["-v"]
+    variants = {"OVR": scenario(name="all-ops-overwrite", backup=False, old=True),
+                "NOPROG": scenario(extra=["--no-progress"], name="all-ops-noprogress"),
+                "OVRNP": scenario(extra=["--no-progress"], name="all-ops-overwrite-noprogress", backup=False, old=True),
+                "RND": scenario(extra=neutral, name="all-ops-" + "".join(neutral).replace("-", ""))}
+    ctx.notes["variant RND"] = neutral
+    for vn in variants:
+        for drv in ("parfile", "parblock"):
+            for sysc in ("ftruncate", "copy_file_range", "openat", "lseek", "ioctl", "fsync", "fchmod", "utimensat", "unlink", "mkdir", "symlink", "mknodat"):
+                n = profiles["%s/w4" % drv].get(sysc, 0) + (4 if vn.startswith("OVR") else 0)
+                idx = list(range(1, n + 1))
+                if quick:
+                    idx = idx[:4] + rnd.sample(idx[4:], min(len(idx[4:]), 2))
+                for when in idx:
+                    jobs.append((drv, 2, sysc, ERRNOS[sysc][when % len(ERRNOS[sysc])], when, "VAR:" + vn))
     # third: one single-block file, every finalisation call of one kind failing, repeated: whichever thread ends up
     # holding the last reference to the handle has to report the failure
     sc_one = scenario_one()
@@ -118,7 +143,7 @@ def run(ctx):
     def one(j):
         drv, w, sysc, err, when, plan = j
         rid = "c04-%s-w%d-%s-%s-%d%s" % (drv, w, sysc, err, when, "-" + plan.replace("=", "") if plan else "")
-        the_sc = sc_own if plan == "OWN" else (sc_one if plan and plan.startswith("ONE") else sc)
+        the_sc = sc_own if plan == "OWN" else (sc_one if plan and plan.startswith("ONE") else (variants[plan[4:]] if plan and plan.startswith("VAR:") else sc))
         only = plan[4:] if plan and plan.startswith("OBJ:") else None
         env = {"XCP_VERIF_PLAN": plan} if plan and plan.startswith("cfr") else None
         inj_spec = "%s:error=%s:when=%d" % (sysc, err, when) if when > 0 else "%s:error=%s" % (sysc, err)
